@@ -19,12 +19,15 @@ for name in $LIST; do
   d=$SD/$name
   [ -f $d/patch.diff ] || continue
   prop=$(python3 -c "import json;print(json.load(open('$d/meta.json'))['property'])")
+  # a change that only the thorough tier can reach (meta.json "tier": "thorough") is run in that tier alone
+  only=$(python3 -c "import json;print(json.load(open('$d/meta.json')).get('tier',''))")
   git -C "$REPO" apply $PWD/$d/patch.diff || { echo "PATCH-DOES-NOT-APPLY $name"; fail=1; continue; }
   ids="$prop"; [ $ALLC -eq 1 ] && ids="C04 C05 C09 C11 C13 C15 C16"
   caught=""
   for id in $ids; do
     for tier in quick thorough; do
-      [ $tier = thorough ] && [ $THOR -eq 0 ] && continue
+      [ "$only" = thorough ] && [ $tier = quick ] && continue
+      [ $tier = thorough ] && [ $THOR -eq 0 ] && [ "$only" != thorough ] && continue
       [ $tier = thorough ] && [ -n "$caught" ] && continue
       out=$(VERIF_NO_EVIDENCE=1 ./check $id $tier 2>&1); rc=$?
       if [ $rc -eq 1 ]; then
